@@ -570,7 +570,20 @@ def _row_items(draw, width, prof, mode, pen_color="white"):
         continue
       if prof["ch2"] and draw(st.integers(0, 9)) == 0:
         items.append(draw(_burst(prof)))
-      items.append(single({"t": "spc", "c": draw(st.sampled_from(SPECIALS))})); used += 1
+      it = single({"t": "spc", "c": draw(st.sampled_from(SPECIALS))})
+      items.append(it); used += 1
+      if it.get("single") and used + 1 <= limit and draw(st.integers(0, 2)) == 0:
+        # the same code once more, sent once, with only null words or channel-2 data between the two: not consecutive words, so a
+        # decoder executes both (seeded changes C08-19, C08-20)
+        can_pad = prof["pad"] and (mode == "pop" or prof["pad_inside"])
+        gap = None
+        if can_pad and (not prof["ch2"] or draw(st.booleans())):
+          gap = {"t": "pad", "n": draw(st.integers(1, 3))}
+        elif prof["ch2"]:
+          gap = draw(_burst(dict(prof, f2=False)))
+        if gap is not None:
+          items.append(gap)
+          items.append({"t": "spc", "c": it["c"], "single": True}); used += 1
     elif kind == "ext":
       if used + 1 > limit:
         continue
@@ -592,11 +605,14 @@ def _row_items(draw, width, prof, mode, pen_color="white"):
     items.insert(draw(st.integers(0, len(items))), {"t": "pad", "n": draw(st.integers(1, 6))})
   if mode == "paint" and not prof["paint_c4"]:
     _avoid_c4(items)
-  # an undoubled control code followed (after padding or another channel's burst at most) by the same code sent once would be
-  # read as its redundant copy: the second one is doubled
+  # an undoubled control code followed at once (or after a field-2 burst at most) by the same code sent once would be read as its
+  # redundant copy: the second one is doubled.  Null words or channel-2 words between the two make them two codes.
   last = None
   for it in items:
-    if it["t"] in ("pad", "ch2"):
+    if it["t"] == "pad" or (it["t"] == "ch2" and not it.get("f2")):
+      last = None
+      continue
+    if it["t"] == "ch2":
       continue
     sig = ("mid", it["color"], it["ul"]) if it["t"] == "mid" else ("spc", it["c"]) if it["t"] == "spc" else None
     if sig is not None and sig == last and it.get("single"):
